@@ -601,6 +601,9 @@ func (t *trans) call(x *cCall) (string, vtype) {
 			t.fail("fresh() outside a two-state context")
 		}
 		return fmt.Sprintf("(and (distinct %s nil) (>= (born %s) %s))", s, s, t.old.alloc), boolT
+	case "allocCounter": // the allocation counter of the current state (objects allocated so far have born < allocCounter())
+		c.needWF = true // reasoning about allocation times of values read from the heap
+		return t.cur.alloc, intT
 	case "allocated":
 		s, _ := arg(0)
 		return fmt.Sprintf("(< (born %s) %s)", s, t.cur.alloc), boolT
